@@ -18,7 +18,9 @@ void verif_noreturn(void);
 
 extern int g_no_error;
 
+#ifndef LITCAP
 #define LITCAP 70
+#endif
 static char g_litbuf[LITCAP + 1];
 
 /* a token spelling of n characters (n <= LITCAP): the first 4 from one scalar (no NUL among them), the rest 'y' */
